@@ -57,6 +57,9 @@ def hist_fallback(txt):
     return "(OIllegal 0, %s, %s)" % (lst([]), lst(["HOUnexpected %s" % L.what(txt)]))
 
 
+_LAST_PDU = {}
+
+
 def rt_case(spec):
     """never raises: every outcome of the implementation is an observation in the case term"""
     server = is_request(spec[0])
@@ -69,13 +72,28 @@ def rt_case(spec):
     e1, b1, x1 = L.res(lambda: L.pdu_of(o), L.nbytes, "bytes")
     e2, _, _ = L.res(lambda: L.pdu_of(o), L.nbytes, "bytes")
     d1, e3, d2 = SKIP_O, SKIP_B, SKIP_O
+    xd = True
     if x1 is None:
         d1, o1, xd = L.res(lambda: L.helper(server, b1), L.obj_term, "obj")
         if xd is None:
+            # a decoded message is a value of its own: decoding ANOTHER frame of the same kind on the same decoder
+            # (the previous case's bytes) must not change the message we already hold
+            other = _LAST_PDU.get((server, spec[0]))
+            if other is not None and other != b1:
+                L.res(lambda: L.helper(server, other), L.obj_term, "obj")
+                again, _, _ = L.res(lambda: o1, L.obj_term, "obj")
+                if again != d1:
+                    d1 = L.unexpected("obj", "%s changed while another frame was decoded: %s -> %s" % (spec[0], d1[:120], again[:120]))
+            _LAST_PDU[(server, spec[0])] = b1
             e3, b3, x3 = L.res(lambda: L.pdu_of(o1), L.nbytes, "bytes")
             if x3 is None:
                 d2, _, _ = L.res(lambda: L.helper(server, b3), L.obj_term, "obj")
     t = "(%s, %s, %s, %s, %s, %s, %s)" % ("true" if server else "false", term, e1, e2, d1, e3, d2)
+    # what an application may do with a message it was handed — edit its lists IN PLACE — must stay its own
+    # business: the decoders are the process-wide ones, so anything a decoded message shares with the decoder, a
+    # cache or a sibling message shows up in the cases that follow (observations above are already taken)
+    if x1 is None and xd is None:
+        scribble(o1)
     try:
         nw = diag_words(o)
     except Exception:  # noqa: BLE001
@@ -83,6 +101,21 @@ def rt_case(spec):
     desc = {"class": spec[0], "spec": repr(spec[1:])[:3000], "pdu": e1[:300], "decoded": d1[:300],
             "pure": e1 == e2, "nwords": nw, "unexpected": "Unexpected" in (e1 + e2 + d1 + e3 + d2)}
     return Case(t, desc, kind=spec[0], nontrivial=x1 is None)
+
+
+def scribble(m):
+    """in-place edits of every list a decoded message holds (never rebinding an attribute)"""
+    try:
+        for k, v in list(vars(m).items()):
+            if isinstance(v, list):
+                v.reverse()
+                v.append(v[0] if v else 1)
+                if v and isinstance(v[0], bool):
+                    v[0] = not v[0]
+            elif isinstance(v, dict):
+                v["scribbled"] = 1
+    except Exception:  # noqa: BLE001
+        pass
 
 
 def diag_words(o):
